@@ -1,11 +1,12 @@
 SPECIFICATION Spec
 CONSTANTS
+  VRPairs <- VRQuick
   Surrounds = {{}, {3, 6, 9, 12}}
   DocHi = {TRUE}
   DocSurs = {{}}
   FullDocs = FALSE
-  E2EAlgs = {"rc4_40", "rc4_128_r3", "rc4_128", "aes_128", "aes_256", "aes_256_r6"}
-  ApiAlgs = {"rc4_40", "rc4_128_r3", "rc4_128", "aes_128", "aes_256", "aes_256_r6"}
+  E2EAlgs = {"rc4_40", "rc4_40_v2", "rc4_40_r3", "rc4_128_r3", "rc4_128", "aes_128", "aes_256", "aes_256_r6"}
+  ApiAlgs = {"rc4_40", "rc4_40_v2", "rc4_40_r3", "rc4_128_r3", "rc4_128", "aes_128", "aes_256", "aes_256_r6"}
   ApiRels = {{}, {4}, {5}, {4, 5}, {10}, {11}, {10, 11}}
   ApiSurs = {{}}
   Emit = TRUE
